@@ -46,4 +46,42 @@ theorem policy_before_issuance : callOrder = [
     ("authority/tls.go:Authority.signX509", ["isAllowedToSignX509Certificate", "CreateCertificate", "storeCertificate"])] := by
   decide +kernel
 
+/-- Reviewed: the name-policy validators each provisioner type builds for its sign options. Every X.509 signer passes
+    the provisioner's X.509 policy; every SSH signer passes the provisioner's SSH host policy; the types that can issue
+    user certificates (JWK, X5C, OIDC, K8sSA, GCP) pass the user policy as well, the host-only types (AWS, Azure, Nebula)
+    pass `nil` for it — `sshNamePolicyValidator.Valid` then refuses user certificates whenever a host policy exists
+    (`ssh_other_section_only_denies`). A validator built without one of its sections would take the "no policy" branch
+    for that certificate type. -/
+def reviewedValidators : List (String × String × String) := [
+  ("authority/provisioner/acme.go:ACME.AuthorizeSign", "newX509NamePolicyValidator", "p.ctl.getPolicy().getX509()"),
+  ("authority/provisioner/aws.go:AWS.AuthorizeSign", "newX509NamePolicyValidator", "p.ctl.getPolicy().getX509()"),
+  ("authority/provisioner/aws.go:AWS.AuthorizeSSHSign", "newSSHNamePolicyValidator", "p.ctl.getPolicy().getSSHHost(),nil"),
+  ("authority/provisioner/azure.go:Azure.AuthorizeSign", "newX509NamePolicyValidator", "p.ctl.getPolicy().getX509()"),
+  ("authority/provisioner/azure.go:Azure.AuthorizeSSHSign", "newSSHNamePolicyValidator", "p.ctl.getPolicy().getSSHHost(),nil"),
+  ("authority/provisioner/gcp.go:GCP.AuthorizeSign", "newX509NamePolicyValidator", "p.ctl.getPolicy().getX509()"),
+  ("authority/provisioner/gcp.go:GCP.AuthorizeSSHSign", "newSSHNamePolicyValidator", "p.ctl.getPolicy().getSSHHost(),p.ctl.getPolicy().getSSHUser()"),
+  ("authority/provisioner/jwk.go:JWK.AuthorizeSign", "newX509NamePolicyValidator", "p.ctl.getPolicy().getX509()"),
+  ("authority/provisioner/jwk.go:JWK.AuthorizeSSHSign", "newSSHNamePolicyValidator", "p.ctl.getPolicy().getSSHHost(),p.ctl.getPolicy().getSSHUser()"),
+  ("authority/provisioner/k8sSA.go:K8sSA.AuthorizeSign", "newX509NamePolicyValidator", "p.ctl.getPolicy().getX509()"),
+  ("authority/provisioner/k8sSA.go:K8sSA.AuthorizeSSHSign", "newSSHNamePolicyValidator", "p.ctl.getPolicy().getSSHHost(),p.ctl.getPolicy().getSSHUser()"),
+  ("authority/provisioner/nebula.go:Nebula.AuthorizeSign", "newX509NamePolicyValidator", "p.ctl.getPolicy().getX509()"),
+  ("authority/provisioner/nebula.go:Nebula.AuthorizeSSHSign", "newSSHNamePolicyValidator", "p.ctl.getPolicy().getSSHHost(),nil"),
+  ("authority/provisioner/oidc.go:OIDC.AuthorizeSign", "newX509NamePolicyValidator", "o.ctl.getPolicy().getX509()"),
+  ("authority/provisioner/oidc.go:OIDC.AuthorizeSSHSign", "newSSHNamePolicyValidator", "o.ctl.getPolicy().getSSHHost(),o.ctl.getPolicy().getSSHUser()"),
+  ("authority/provisioner/scep.go:SCEP.AuthorizeSign", "newX509NamePolicyValidator", "s.ctl.getPolicy().getX509()"),
+  ("authority/provisioner/x5c.go:X5C.AuthorizeSign", "newX509NamePolicyValidator", "p.ctl.getPolicy().getX509()"),
+  ("authority/provisioner/x5c.go:X5C.AuthorizeSSHSign", "newSSHNamePolicyValidator", "p.ctl.getPolicy().getSSHHost(),p.ctl.getPolicy().getSSHUser()")
+]
+
+/-- the validators are built exactly as reviewed (regenerated from authority/provisioner/*.go on every run) -/
+theorem validators_reviewed : validators = reviewedValidators := by decide +kernel
+
+/-- every provisioner type's SSH validator is given the provisioner's own host policy, and every X.509 validator the
+    provisioner's own X.509 policy -/
+theorem validators_get_own_policy :
+    validators.all (fun v =>
+      (v.2.1 = "newX509NamePolicyValidator" && (v.2.2 = "p.ctl.getPolicy().getX509()" || v.2.2 = "o.ctl.getPolicy().getX509()" || v.2.2 = "s.ctl.getPolicy().getX509()"))
+      || (v.2.1 = "newSSHNamePolicyValidator" && (v.2.2.startsWith "p.ctl.getPolicy().getSSHHost()," || v.2.2.startsWith "o.ctl.getPolicy().getSSHHost(),"))) = true := by
+  decide +kernel
+
 end Verif.Policy.Calls
